@@ -766,6 +766,59 @@ def check_def_before_use(prog, rep):
 ROLE_ARGS = {'_term_to_ops_list': (3, 'JW_from_right')}
 
 
+def check_shallow_copy_methods(prog, rep):
+    """site.py makes shallow copies of sites (`copy.copy(s)`) and then calls methods on the
+    copies; a shallow copy shares every container attribute with the original. In those methods a
+    mapping attribute whose entries change (state_labels under a permutation) must be re-bound to a
+    new object, not assigned item by item -- or the original site changes too."""
+    m = prog.module(SITE)
+    meths = set()
+    for q, f in m.functions.items():
+        copies = set()
+        for st in stmts_of(f):
+            if isinstance(st, ast.Assign) and isinstance(st.targets[0], ast.Name) and \
+                    'copy.copy(' in unparse(st.value):
+                copies.add(st.targets[0].id)
+        if not copies:
+            continue
+        for c in body_nodes(f):
+            if isinstance(c, ast.Call) and isinstance(c.func, ast.Attribute):
+                b = c.func.value
+                while isinstance(b, ast.Subscript):
+                    b = b.value
+                if isinstance(b, ast.Name) and b.id in copies and c.func.attr not in (
+                        'append', 'extend'):
+                    meths.add(c.func.attr)
+    n = 0
+    for name in sorted(meths):
+        if not m.has_func('Site.' + name):
+            continue
+        f = m.func('Site.' + name)
+        n += 1
+        rep.instance('OWN-shallow', {'method': 'Site.' + name,
+                                     'reason': 'called on copy.copy() of a site'})
+        for st in stmts_of(f):
+            hits = []
+            for t in assigned_targets(st):
+                if isinstance(t, ast.Subscript) and is_self_attr(t.value):
+                    hits.append(unparse(t.value))
+            if isinstance(st, ast.Expr) and isinstance(st.value, ast.Call) and \
+                    isinstance(st.value.func, ast.Attribute) and \
+                    st.value.func.attr in ('update', 'setdefault') and \
+                    is_self_attr(st.value.func.value):
+                hits.append(unparse(st.value.func.value))
+            for h in hits:
+                rep.violation('OWN-shallow', m, 'Site.' + name, 'item-store:' + h,
+                              '`%s` changes the entries of `%s` in place, but Site.%s is called on '
+                              'shallow copies of sites (copy.copy in this module), which share '
+                              'that mapping with the original site: the original\'s %s no longer '
+                              'match its operators' % (key_text(st)[:70], h, name,
+                                                       h.split('.')[-1]), st.lineno)
+    if n < 1:
+        raise AnalysisError('OWN-shallow: no method called on shallow copies of sites was found')
+    return n
+
+
 def check_recompute_agree(prog, rep):
     m = prog.module(MPS)
     n = 0
@@ -836,6 +889,8 @@ def run(prog, rep, tier):
     rep.rule('DEF-before-use', 'definite assignment on the statement CFG of every function of '
              'site.py and terms.py (same-guard, conjunct and run-at-least-once-loop idioms '
              'recognised; remaining reads are in the confirmed table)')
+    rep.rule('OWN-shallow', 'methods called on shallow copies of sites re-bind mapping attributes '
+             'instead of assigning items')
     rep.rule('OWN-attr', 'attributes that may alias constructor arguments are not written in '
              'place')
     check_site_registry(prog, rep)
@@ -845,6 +900,7 @@ def run(prog, rep, tier):
     check_jw_entry_points(prog, rep)
     check_owned_attrs(prog, rep)
     check_recompute_agree(prog, rep)
+    check_shallow_copy_methods(prog, rep)
     ndef = check_def_before_use(prog, rep)
     if ndef < 100:
         raise AnalysisError('DEF-before-use analysed only %d functions of site.py/terms.py' % ndef)
